@@ -54,6 +54,37 @@ def run(prop, out_path, repo='/repo'):
             ok = ok and good
         finally:
             shutil.rmtree(d, ignore_errors=True)
+    # the seeded changes kept under /verif/seeded that this property's check is recorded to catch
+    import glob
+    for sd in sorted(glob.glob('/verif/seeded/%s-*' % prop)):
+        try:
+            meta = json.load(open(sd + '/meta.json'))
+        except Exception:
+            continue
+        expect_rules = sorted({x.split()[0] for x in meta.get('caught_by', {}).get(prop, []) if not x.startswith('ANALYSIS')})
+        if not expect_rules:
+            continue
+        name = 'seeded ' + os.path.basename(sd)
+        d = tempfile.mkdtemp(prefix='soyvar.', dir='/tmp')
+        try:
+            subprocess.run(['rsync', '-a', '--exclude', '.git', repo + '/', d + '/'], check=True)
+            pr = subprocess.run(['patch', '-p1', '-s', '--no-backup-if-mismatch', '-i', sd + '/patch.diff'], cwd=d, capture_output=True, text=True)
+            if pr.returncode != 0:
+                results.append({'name': name, 'status': 'skipped (patch does not apply to this tree)'})
+                continue
+            b = subprocess.run(['go', 'build', './...'], cwd=d, capture_output=True, text=True, env=env)
+            if b.returncode != 0:
+                results.append({'name': name, 'status': 'skipped (patched tree does not compile)'})
+                continue
+            r = subprocess.run(['/verif/bin/soylint', 'check', '-prop', prop, '-repo', d, '-no-evidence', '-out', '/verif'],
+                               capture_output=True, text=True, env=env)
+            found = set(re.findall(r'^(?:VIOLATED|UNDECIDED) (\S+) (.*?) at ', r.stdout, re.M)) - base_v
+            good = any(x[0] in expect_rules for x in found)
+            results.append({'name': name, 'kind': 'must-fire (seeded change)', 'expect': ' or '.join(expect_rules),
+                            'status': 'fired' if good else 'MISSED', 'reported': sorted(' '.join(x) for x in found)[:6]})
+            ok = ok and good
+        finally:
+            shutil.rmtree(d, ignore_errors=True)
     summary = {
         'variants_fired': sum(1 for r in results if r['status'] == 'fired'),
         'variants_quiet': sum(1 for r in results if r['status'] == 'quiet'),
